@@ -40,16 +40,6 @@ theorem noNumber_colon (l : List Char) : NoNumber (' ' :: ':' :: l) := by
   rw [h2] at this
   cases this
 
-theorem getValues_none (n : Nat) (tail : List Char) (h : NoNumber tail) : getValues n tail = [] := by
-  cases n with
-  | zero => rfl
-  | succ k =>
-    unfold getValues
-    cases hc : cdouble tail with
-    | ok v r => exact absurd hc (h v r)
-    | zero => rfl
-    | err e => rfl
-
 theorem polyCoeffs_none (n : Nat) (tail : List Char) (h : NoNumber tail) : polyCoeffs n tail = ([], tail) := by
   cases n with
   | zero => rfl
@@ -59,14 +49,6 @@ theorem polyCoeffs_none (n : Nat) (tail : List Char) (h : NoNumber tail) : polyC
     | ok v r => exact absurd hc (h v r)
     | zero => rfl
     | err e => rfl
-
-theorem getValues_space (n : Nat) (x : List Char) (v : Rat) (r : List Char) (h : cdouble x = .ok v r) :
-    getValues n (' ' :: x) = getValues n x := by
-  cases n with
-  | zero => rfl
-  | succ k =>
-    unfold getValues
-    rw [cdouble_space x v r h, h]
 
 theorem polyCoeffs_space (n : Nat) (x : List Char) (v : Rat) (r : List Char) (h : cdouble x = .ok v r) :
     polyCoeffs (n + 1) (' ' :: x) = polyCoeffs (n + 1) x := by
@@ -102,33 +84,6 @@ theorem join_head (toks : List (List Char)) (vs : List Rat) (hne : toks ≠ [])
             cdouble_strict t _ v ht (stops_space _), Or.inr ⟨hmore, rfl⟩⟩
           rw [joinBlank_cons _ _ hmore]
           simp
-
-theorem getValues_join (toks : List (List Char)) (vs : List Rat) (hne : toks ≠ [])
-    (h : allSome (toks.map strictNumber) = some vs) (tail : List Char) (hst : Stops tail) (hn : NoNumber tail)
-    (n : Nat) : getValues n (joinBlank toks ++ tail) = vs.take n := by
-  induction toks generalizing vs n with
-  | nil => exact absurd rfl hne
-  | cons t0 more0 ih =>
-    cases n with
-    | zero => simp [getValues]
-    | succ k =>
-      obtain ⟨t, more, v, ws, R, e1, e2, ht, hm, hj, hc, hR⟩ := join_head (t0 :: more0) vs hne h tail hst
-      obtain ⟨ea, eb⟩ := List.cons.inj e1
-      subst ea; subst eb
-      subst e2
-      rw [hj]
-      unfold getValues
-      rw [hc]
-      simp only [List.take_succ_cons, List.cons.injEq, true_and]
-      rcases hR with ⟨hm0, hr⟩ | ⟨hm0, hr⟩
-      · subst hm0; subst hr
-        simp only [List.map_nil, allSome, Option.some.injEq] at hm
-        subst hm
-        rw [getValues_none k R hn]; simp
-      · subst hr
-        obtain ⟨t2, more2, v2, ws2, R2, _, _, _, _, hj2, hc2, _⟩ := join_head more0 ws hm0 hm tail hst
-        rw [getValues_space k _ v2 R2 (by rw [hj2]; exact hc2)]
-        exact ih ws hm0 hm k
 
 theorem polyCoeffs_join (toks : List (List Char)) (vs : List Rat) (hne : toks ≠ [])
     (h : allSome (toks.map strictNumber) = some vs) (tail : List Char) (hst : Stops tail) (hn : NoNumber tail)
@@ -183,12 +138,18 @@ theorem numbers_head (body : List Char) (vs : List Rat) (h : numbers body = some
       · subst e; decide
       · intro e; subst e; simp [isDigit] at e
 
-theorem numbers_getValues (body : List Char) (vs : List Rat) (h : numbers body = some vs) (n : Nat) :
-    getValues n body = vs.take n := by
+theorem numbers_polyCoeffs (body : List Char) (vs : List Rat) (h : numbers body = some vs) (n : Nat)
+    (hn : vs.length ≤ n) : polyCoeffs n body = (vs, []) := by
   have hj := join_split body
   unfold numbers at h
-  have := getValues_join (IterSpec.splitOn ' ' body) vs (splitOn_ne_nil body) h [] stops_nil noNumber_nil n
+  have := polyCoeffs_join (IterSpec.splitOn ' ' body) vs (splitOn_ne_nil body) h [] stops_nil noNumber_nil n hn
   rwa [List.append_nil, hj] at this
+
+theorem numbers_getValues (body : List Char) (vs : List Rat) (h : numbers body = some vs) (n : Nat)
+    (hn : vs.length ≤ n) : getValues n body = some vs := by
+  unfold getValues
+  rw [numbers_polyCoeffs body vs h n hn]
+  rfl
 
 /-! ### the three profiles -/
 
@@ -197,58 +158,62 @@ theorem profSkip_space (b : List Char) : profSkip (' ' :: b) = profSkip b := by
   have : dropSpace (' ' :: b) = dropSpace b := by simp [dropSpace, isSpace]
   rw [this]
 
-def pick2 (vs : List Rat) (f : Rat → Rat → Option Gen) : Option Gen :=
-  match vs with | [a, b] => f a b | _ => none
-def pick3 (vs : List Rat) (f : Rat → Rat → Rat → Option Gen) : Option Gen :=
-  match vs with | [a, b, c] => f a b c | _ => none
+def pick2 (vs : Option (List Rat)) (f : Rat → Rat → Option Gen) : Option Gen :=
+  match vs with | some [a, b] => f a b | _ => none
+def pick3 (vs : Option (List Rat)) (f : Rat → Rat → Rat → Option Gen) : Option Gen :=
+  match vs with | some [a, b, c] => f a b c | _ => none
 
-theorem profile_lin1 (grid : List Rat) (body : List Char) (vs : List Rat) (hge : grid.isEmpty = false)
+theorem profile_lin1 (grid : List Rat) (body : List Char) (vs : Option (List Rat)) (hge : grid.isEmpty = false)
     (hps : profSkip body = body) (hgv : getValues 2 body = vs) :
     profile grid ("lin".toList ++ ' ' :: body) = pick2 vs (mkLinear grid.length) := by
   have l3 : "lin".length = 3 := by decide
   simp [profile, hge, dropSpace, isSpace, startsWithCI, lowerAll, lower, profNext, profCont, profSkip_space, hps, l3, hgv]
   match vs with
-  | [] => rfl
-  | [_] => rfl
-  | [_, _] => rfl
-  | _ :: _ :: _ :: _ => rfl
+  | none => rfl
+  | some [] => rfl
+  | some [_] => rfl
+  | some [_, _] => rfl
+  | some (_ :: _ :: _ :: _) => rfl
 
-theorem profile_lin2 (grid : List Rat) (body : List Char) (vs : List Rat) (hge : grid.isEmpty = false)
+theorem profile_lin2 (grid : List Rat) (body : List Char) (vs : Option (List Rat)) (hge : grid.isEmpty = false)
     (hps : profSkip body = body) (hgv : getValues 2 body = vs) :
     profile grid ("linear".toList ++ ' ' :: body) = pick2 vs (mkLinear grid.length) := by
   have l3 : "lin".length = 3 := by decide
   simp [profile, hge, dropSpace, isSpace, startsWithCI, lowerAll, lower, profNext, profCont, profSkip_space, hps, l3, hgv]
   match vs with
-  | [] => rfl
-  | [_] => rfl
-  | [_, _] => rfl
-  | _ :: _ :: _ :: _ => rfl
+  | none => rfl
+  | some [] => rfl
+  | some [_] => rfl
+  | some [_, _] => rfl
+  | some (_ :: _ :: _ :: _) => rfl
 
-theorem profile_bound1 (grid : List Rat) (body : List Char) (vs : List Rat) (hge : grid.isEmpty = false)
+theorem profile_bound1 (grid : List Rat) (body : List Char) (vs : Option (List Rat)) (hge : grid.isEmpty = false)
     (hps : profSkip body = body) (hgv : getValues 3 body = vs) :
     profile grid ("bound".toList ++ ' ' :: body) = pick3 vs (mkBoundary grid.length) := by
   have l3 : "lin".length = 3 := by decide
   have l5 : "bound".length = 5 := by decide
   simp [profile, hge, dropSpace, isSpace, startsWithCI, lowerAll, lower, profNext, profCont, profSkip_space, hps, l3, l5, hgv]
   match vs with
-  | [] => rfl
-  | [_] => rfl
-  | [_, _] => rfl
-  | [_, _, _] => rfl
-  | _ :: _ :: _ :: _ :: _ => rfl
+  | none => rfl
+  | some [] => rfl
+  | some [_] => rfl
+  | some [_, _] => rfl
+  | some [_, _, _] => rfl
+  | some (_ :: _ :: _ :: _ :: _) => rfl
 
-theorem profile_bound2 (grid : List Rat) (body : List Char) (vs : List Rat) (hge : grid.isEmpty = false)
+theorem profile_bound2 (grid : List Rat) (body : List Char) (vs : Option (List Rat)) (hge : grid.isEmpty = false)
     (hps : profSkip body = body) (hgv : getValues 3 body = vs) :
     profile grid ("boundary".toList ++ ' ' :: body) = pick3 vs (mkBoundary grid.length) := by
   have l3 : "lin".length = 3 := by decide
   have l5 : "bound".length = 5 := by decide
   simp [profile, hge, dropSpace, isSpace, startsWithCI, lowerAll, lower, profNext, profCont, profSkip_space, hps, l3, l5, hgv]
   match vs with
-  | [] => rfl
-  | [_] => rfl
-  | [_, _] => rfl
-  | [_, _, _] => rfl
-  | _ :: _ :: _ :: _ :: _ => rfl
+  | none => rfl
+  | some [] => rfl
+  | some [_] => rfl
+  | some [_, _] => rfl
+  | some [_, _, _] => rfl
+  | some (_ :: _ :: _ :: _ :: _) => rfl
 
 theorem profile_poly (grid : List Rat) (body : List Char) (hge : grid.isEmpty = false) (hps : profSkip body = body) :
     profile grid ("poly".toList ++ ' ' :: body) = mkPoly body grid := by
@@ -321,7 +286,7 @@ theorem accept_profile (grid : List Rat) (s : List Char) (d : PDesc) (den : Den)
         split at hd
         · rename_i hg
           cases hd
-          have hgv := numbers_getValues body [a, b] hnum 2
+          have hgv := numbers_getValues body [a, b] hnum 2 (by simp)
           have hps := profSkip_numbers body [a, b] hnum
           obtain ⟨n, hn⟩ : ∃ n, grid.length = n + 1 := ⟨grid.length - 1, by omega⟩
           obtain ⟨g, h1, h2, h3, h4⟩ := mkLinear_ok n a b (by omega)
@@ -348,7 +313,7 @@ theorem accept_profile (grid : List Rat) (s : List Char) (d : PDesc) (den : Den)
           split at hd
           · rename_i hg
             cases hd
-            have hgv := numbers_getValues body [l, i, r] hnum 3
+            have hgv := numbers_getValues body [l, i, r] hnum 3 (by simp)
             have hps := profSkip_numbers body [l, i, r] hnum
             refine ⟨.boundary l i r grid.length 0, ?_, boundary_all l i r grid.length, by simp [Gen.rem], trivial⟩
             have hmk : mkBoundary grid.length l i r = some (.boundary l i r grid.length 0) := by
@@ -398,11 +363,7 @@ theorem accept_profile (grid : List Rat) (s : List Char) (d : PDesc) (den : Den)
                 · rename_i hge
                   cases hd
                   obtain ⟨hds, hcol, _⟩ := numbers_head m ms hm
-                  have hjs := join_split m
-                  have hpc : polyCoeffs 128 m = (ms, []) := by
-                    have := polyCoeffs_join (IterSpec.splitOn ' ' m) ms (splitOn_ne_nil m) hm [] stops_nil
-                      noNumber_nil 128 (by omega)
-                    rwa [List.append_nil, hjs] at this
+                  have hpc : polyCoeffs 128 m = (ms, []) := numbers_polyCoeffs m ms hm 128 (by omega)
                   have hms : ms ≠ [] := by
                     intro e
                     have hl := allSome_length _ _ hm
@@ -414,7 +375,7 @@ theorem accept_profile (grid : List Rat) (s : List Char) (d : PDesc) (den : Den)
                     unfold mkPoly
                     simp only [hpc]
                     rw [if_neg (by simpa using hms)]
-                    simp [dropToColon, polyCoeff]
+                    simp [dropSpace, polyCoeff]
                   refine ⟨_, hprof _ hmk (by simpa using hge) hds hcol, ?_, by simp [Gen.rem], ?_⟩
                   · rw [poly_elems]
                     simp only [Gen.all]
@@ -486,16 +447,30 @@ theorem accept_profile (grid : List Rat) (s : List Char) (d : PDesc) (den : Den)
                         intro e; rw [e] at hlen; simp at hlen
                       obtain ⟨t2, more2, v2, ws2, R2, _, _, _, _, hj2, hc2, _⟩ :=
                         join_head (IterSpec.splitOn ' ' sh.tail) ss (splitOn_ne_nil _) hs [] stops_nil
-                      have hgv : getValues (ms.length - 1) (' ' :: sh.tail) = ss := by
-                        rw [getValues_space _ sh.tail v2 R2 (by
-                          have := hc2; rw [← hj2, List.append_nil, hjs] at this; exact this)]
-                        rw [numbers_getValues sh.tail ss hs]
-                        exact List.take_of_length_le (by omega)
+                      have hss : ss ≠ [] := by
+                        intro e
+                        have hl := allSome_length _ _ hs
+                        rw [e] at hl
+                        cases hq : IterSpec.splitOn ' ' sh.tail with
+                        | nil => exact splitOn_ne_nil _ hq
+                        | cons _ _ => rw [hq] at hl; simp at hl
+                      have hsl : 1 ≤ ss.length := by
+                        cases ss with
+                        | nil => exact absurd rfl hss
+                        | cons _ _ => simp
+                      obtain ⟨k, hk⟩ : ∃ k, ms.length - 1 = k + 1 := ⟨ms.length - 2, by omega⟩
+                      have hsh : polyCoeffs (ms.length - 1) (' ' :: sh.tail) = (ss, []) := by
+                        rw [hk, polyCoeffs_space k sh.tail v2 R2 (by
+                          have := hc2; rw [← hj2, List.append_nil, hjs] at this; exact this), ← hk]
+                        exact numbers_polyCoeffs sh.tail ss hs _ (by omega)
                       have hmk : mkPoly body grid = some (.poly grid (polyCoeff ms ss) 0 none) := by
                         unfold mkPoly
                         simp only [hpc]
                         rw [if_neg (by simpa using hms)]
-                        simp [dropToColon, polyCoeff, hgv]
+                        have hd1 : dropSpace (' ' :: ':' :: ' ' :: sh.tail) = ':' :: ' ' :: sh.tail := by
+                          simp [dropSpace, isSpace]
+                        simp only [hd1, List.head?_cons, ↓reduceIte, List.tail_cons, hsh]
+                        simp [dropSpace, polyCoeff]
                       refine ⟨_, hprof _ hmk (by simpa using hge) hds hcol, ?_, by simp [Gen.rem], ?_⟩
                       · rw [poly_elems]
                         simp only [Gen.all]
@@ -548,31 +523,27 @@ theorem profile_refused (grid : List Rat) (s : List Char) (h : profileMalformed 
             simp only [Bool.or_eq_true, Bool.and_eq_true, decide_eq_true_eq] at h
             have hps := profSkip_numbers body vs hn
             rcases h with ⟨hname, hlen⟩ | ⟨hname, hlen⟩
-            · have hgv := numbers_getValues body vs hn 2
-              have htk : vs.take 2 = vs := List.take_of_length_le (by omega)
-              rw [htk] at hgv
+            · have hgv := numbers_getValues body vs hn 2 (by omega)
               rcases hname with e | e
               · have := ofList_eq _ _ e
                 rw [this] at hsplit
-                have hp := profile_lin1 grid body vs hge hps hgv
+                have hp := profile_lin1 grid body (some vs) hge hps hgv
                 rw [hsplit] at hp
                 match vs, hlen, hp with
                 | [], _, hp => exact hp
                 | [_], _, hp => exact hp
               · have := ofList_eq _ _ e
                 rw [this] at hsplit
-                have hp := profile_lin2 grid body vs hge hps hgv
+                have hp := profile_lin2 grid body (some vs) hge hps hgv
                 rw [hsplit] at hp
                 match vs, hlen, hp with
                 | [], _, hp => exact hp
                 | [_], _, hp => exact hp
-            · have hgv := numbers_getValues body vs hn 3
-              have htk : vs.take 3 = vs := List.take_of_length_le (by omega)
-              rw [htk] at hgv
+            · have hgv := numbers_getValues body vs hn 3 (by omega)
               rcases hname with e | e
               · have := ofList_eq _ _ e
                 rw [this] at hsplit
-                have hp := profile_bound1 grid body vs hge hps hgv
+                have hp := profile_bound1 grid body (some vs) hge hps hgv
                 rw [hsplit] at hp
                 match vs, hlen, hp with
                 | [], _, hp => exact hp
@@ -580,7 +551,7 @@ theorem profile_refused (grid : List Rat) (s : List Char) (h : profileMalformed 
                 | [_, _], _, hp => exact hp
               · have := ofList_eq _ _ e
                 rw [this] at hsplit
-                have hp := profile_bound2 grid body vs hge hps hgv
+                have hp := profile_bound2 grid body (some vs) hge hps hgv
                 rw [hsplit] at hp
                 match vs, hlen, hp with
                 | [], _, hp => exact hp
